@@ -19,6 +19,15 @@ Line protocol for the two-party / k-connection composition of the node model (C1
            fire <k> <id J> <event J> | wab <hex> | wba <hex> | resolve <id> <v> <er> |
            yield <id> <values> <er> | aborted, separated by ` ; ` (`nothing` if empty)
   dump <j>                                 residue: todo, bytes in flight, buffers, pending tables, running
+
+the symmetric composition (`ns_step`: both ends of connection 0 originate calls; firewalls = those of `conn 0`,
+`sa`/`ra` for end A, `sb`/`rb` for end B):
+  scall a|b <event J>                      one more call end A / end B is going to make
+  sbeh a|b raise | sbeh a|b ret <A2 value O.. sets>     behaviour of the next handler run on that end
+  sstep a|b send | del <n> | ans <id> | poll <id>       the end that acts (del: reads the next <= n bytes of the peer)
+        -> need / needd as above, or items `fire a|b <k> <id> <event>` | `w a|b <hex>` (bytes written by that end) |
+           `resolve a|b <id> <v> <er>` | `yield a|b <id> <values> <er>` | `blocked a|b` (send firewall) | `aborted`
+  sdump                                    residue of both ends
 -/
 namespace CV.Drv
 open CV.Node
@@ -36,6 +45,9 @@ structure Node2St where
   dtable : Std.HashMap String Bytes := {}
   conns : List Conn2 := []
   worlds : List n2_World := []
+  sym : ns_World := {}
+  behA : List (Option (J × List (String × J))) := []
+  behB : List (Option (J × List (String × J))) := []
 
 def Node2St.parse (s : Node2St) (p : Bytes) : PRes :=
   match s.table[p]? with
@@ -132,6 +144,102 @@ def setConn (s : Node2St) (j : Nat) (f : Conn2 → Conn2) : Option Node2St :=
   | some c => some { s with conns := s.conns.set j (f c) }
   | none => none
 
+
+/-! ### the symmetric composition -/
+
+def Node2St.senv (s : Node2St) : ns_Env :=
+  { base := { s.env 0 with beh := behOf { beh := s.behB } }, behA := behOf { beh := s.behA } }
+
+def parseSide : String → Option Bool
+  | "a" => some false
+  | "b" => some true
+  | _ => none
+
+def parseOpS : List String → Option ns_Op
+  | ["send"] => some .send
+  | ["del", n] => n.toNat?.map .deliver
+  | ["ans", n] => n.toNat?.map .answer
+  | ["poll", n] => n.toNat?.map .poll
+  | _ => none
+
+def needsS (s : Node2St) (E : ns_Env) (w : ns_World) (side : Bool) : ns_Op → List Bytes × List J :=
+  let c := if side then E.base.cB else E.base.cA
+  let me := if side then w.b else w.a
+  let peer := if side then w.a else w.b
+  let beh := if side then E.base.beh else E.behA
+  fun
+  | .send =>
+    match me.todo with
+    | [] => ([], [])
+    | e :: _ => ([], writesOf (send c me.p e false).2)
+  | .deliver n =>
+    let sp := splitD (me.p.buf ++ peer.out.take n)
+    let miss := (sp.1 ++ [sp.2]).filter (fun x => !s.table.contains x)
+    if miss.isEmpty then ([], writesOf (recv c E.base.parse me.p (peer.out.take n)).2.1) else (miss, [])
+  | .answer n =>
+    match me.running.find? (fun r => r.2.1.natKey == some n) with
+    | some (e, id, k) =>
+      match beh k e with
+      | some va => ([], writesOf [sendResult c id va.1 va.2])
+      | none => ([], [])
+    | none => ([], [])
+  | .poll _ => ([], [])
+
+def showFiredS (t : String) (k : Nat) : List (Ev × J) → List String
+  | [] => []
+  | (e, id) :: r => s!"fire {t} {k} {showJ id} {showJ (evToJ e)}" :: showFiredS t (k + 1) r
+
+/-- what an observer sees of one end in one step (`taken` bytes of its stream were read by the peer) -/
+def diffSide (t : String) (x x' : ns_Side) (taken : Nat) : List String :=
+  let f := showFiredS t x.fired.length (x'.fired.drop x.fired.length)
+  let o := appended x.out x'.out taken
+  let r := (x'.resolved.drop x.resolved.length).map (fun y => s!"resolve {t} {y.1} {showJ y.2.1} {showJ y.2.2}")
+  let y := (x'.yielded.drop x.yielded.length).map (fun y => s!"yield {t} {y.1} {showJ (.arr y.2.1)} {showJ y.2.2}")
+  let b := (x'.blocked.drop x.blocked.length).map (fun _ => s!"blocked {t}")
+  f ++ (if o.isEmpty then [] else [s!"w {t} " ++ toHex o]) ++ r ++ y ++ b
+
+def dumpSide (t : String) (x : ns_Side) : String :=
+  s!"{t}todo {x.todo.length} {t}out {x.out.length} {t}buf {toHex x.p.buf} {t}nid {x.p.nid} " ++
+  s!"{t}fired {x.fired.length} {t}blocked {x.blocked.length} {t}pending {showPending x.p.pending} " ++
+  s!"{t}running {showJ (.arr (x.running.map (fun r => r.2.1)))}"
+
+def symStep (s : Node2St) : List String → Node2St × String
+  | "scall" :: side :: js =>
+    match parseSide side, (parseJAll js).bind evOfJ with
+    | some false, some e => ({ s with sym := { s.sym with a := { s.sym.a with todo := s.sym.a.todo ++ [e] } } }, "ok")
+    | some true, some e => ({ s with sym := { s.sym with b := { s.sym.b with todo := s.sym.b.todo ++ [e] } } }, "ok")
+    | _, _ => (s, "bad-op")
+  | ["sbeh", side, "raise"] =>
+    match parseSide side with
+    | some false => ({ s with behA := s.behA ++ [none] }, "ok")
+    | some true => ({ s with behB := s.behB ++ [none] }, "ok")
+    | none => (s, "bad-op")
+  | "sbeh" :: side :: "ret" :: js =>
+    match parseSide side, parseJAll js with
+    | some false, some (.arr [v, .obj sets]) => ({ s with behA := s.behA ++ [some (v, sets)] }, "ok")
+    | some true, some (.arr [v, .obj sets]) => ({ s with behB := s.behB ++ [some (v, sets)] }, "ok")
+    | _, _ => (s, "bad-op")
+  | "sstep" :: side :: rest =>
+    match parseSide side, parseOpS rest with
+    | some side, some op =>
+      if s.conns.isEmpty then (s, "bad-op") else
+      let E := s.senv
+      let w := s.sym
+      let nd := needsS s E w side op
+      match nd.1, nd.2.filter (fun x => !s.dtable.contains (showJ x)) with
+      | p :: _, _ => (s, "need " ++ toHex p)
+      | [], x :: _ => (s, "needd " ++ showJ x)
+      | [], [] =>
+        let w' := ns_step E w (side, op)
+        let tA := match op with | .deliver n => if side then min n w.a.out.length else 0 | _ => 0
+        let tB := match op with | .deliver n => if side then 0 else min n w.b.out.length | _ => 0
+        let d := diffSide "a" w.a w'.a tA ++ diffSide "b" w.b w'.b tB ++
+          (if w'.aborted && !w.aborted then ["aborted"] else [])
+        ({ s with sym := w' }, if d.isEmpty then "nothing" else " ; ".intercalate d)
+    | _, _ => (s, "bad-op")
+  | ["sdump"] => (s, dumpSide "a" s.sym.a ++ " " ++ dumpSide "b" s.sym.b)
+  | _ => (s, "bad-op")
+
 def node2Step (s : Node2St) : List String → Node2St × String
   | "excl" :: names =>
     match hexStrs names with
@@ -210,7 +318,7 @@ def node2Step (s : Node2St) : List String → Node2St × String
     match j.toNat?.bind (fun j => s.worlds[j]?) with
     | some w => (s, dump2 w)
     | none => (s, "bad-op")
-  | _ => (s, "bad-op")
+  | ops => symStep s ops
 
 def node2Machine : Machine := ⟨Node2St, {}, node2Step⟩
 
